@@ -136,6 +136,10 @@ class TimeDomain(ZoneDomain):
     def eval(self, e: ast.AST, s: Zone) -> AVal:
         if isinstance(e, ast.Constant) and e.value is None:
             return AVal(None, -INF, INF, False, tag=('none',))
+        if isinstance(e, ast.Name) and f'snap:{e.id}' in s.aux:
+            # a local that holds a floor multiple (or instant + floor multiple): read it as the value it
+            # was given, so that `d = k * p; t = a + d` is judged like `t = a + k * p`
+            return s.aux[f'snap:{e.id}']
         v = super().eval(e, s)
         return v
 
@@ -176,7 +180,8 @@ class TimeDomain(ZoneDomain):
                     else:
                         keep_lo = lo - span
                 extra.append((var, keep_lo, hi))
-            tag = v.tag if (whole and fields == {'microsecond'}) else ()
+            # flooring to the second keeps `a + k*p` only if the value already is on a whole second
+            tag = v.tag if (whole and fields == {'microsecond'} and v.isint) else ()
             if v.base is None:
                 lo, hi = v.lo, v.hi
                 return AVal(None, (math.floor(lo) if fields == {'microsecond'} and lo > -INF else lo - span),
@@ -289,9 +294,16 @@ class TimeDomain(ZoneDomain):
                 else:
                     del s.aux[k]
         s.aux.pop(f'tag:{x}', None)
+        for k in [k for k in s.aux if k.startswith('snap:')]:
+            sv = s.aux[k]
+            if k == f'snap:{x}' or sv.base == x or any(var == x for var, _lo, _hi in sv.extra) \
+                    or (len(sv.tag) > 1 and x in sv.tag[1:]):
+                del s.aux[k]
         s.facts -= {f'none:{x}', f'some:{x}'}
         s.facts -= {f for f in s.facts if f.startswith((f'str:{x}=', f'strnot:{x}='))}
         super().assign(s, x, v, rhs)
+        if v.tag[:1] in (('mult',), ('base+mult',)) and v.base != x and '.' not in x:
+            s.aux[f'snap:{x}'] = v
         if v.base is not None and v.base != x and v.lo == 0 == v.hi:
             for f in list(s.facts):
                 for k in ('str:', 'strnot:'):
